@@ -179,6 +179,7 @@ func init() {
 	register("C07", true, func(p *core.Prog, r *core.Report, tier string) {
 		traps.C07(p, r)
 		traps.CommitHonour(p, r)
+		traps.EOFMask(p, r)
 		traps.NoDump(p, r)
 		traps.OriginLength(p, r, true)
 		conserve.MapInit(p, r)
